@@ -491,6 +491,68 @@ def span_extension(run, ir, zm, deviation, nsim):
         run.unknown(key, f"solver {r}")
 
 
+def split_equals_single(run, ir, zm, deviation, nsim=5):
+    """simulate(..., force_split_frames=True) (one frame per date with an unanticipated shock, frames chained symbolically) returns the same
+    path as the single-frame simulation of the same inputs, in particular with an anticipated shock dated after the end of the early frames"""
+    from checks.C07 import _merge_caps
+    key = f"split_frames:{zm.name}:dev={deviation}:nsim={nsim}"
+    finding = f"first_order:split_frames:{zm.name}"
+    case = dict(kind="split_frames", model=zm.name, deviation=deviation, nsim=nsim)
+    m, db, span, ant_cells, steady = _setup(ir, zm, nsim, 0, deviation, ant_ks={nsim - 1, 1})
+    rows = _lift_rows(zm)
+    where = _where(zm, ant_cells)
+    with fo.FirstOrderLift(ir, rows, lift_where=where) as L1, S.Path() as p1:
+        m.simulate(db, span, method="first_order", deviation=deviation)
+    with fo.FirstOrderLift(ir, rows, lift_where=where, chain=True) as L2, S.Path() as p2:
+        m.simulate(db, span, method="first_order", deviation=deviation, force_split_frames=True)
+    if len(L2.caps) < 2:
+        run.unknown(key, f"force_split_frames=True ran {len(L2.caps)} frame(s)")
+        return
+    single, split = L1.caps[0], _merge_caps(L2.caps)
+    rs, rp = {n: i for i, n in enumerate(single["names"])}, {n: i for i, n in enumerate(split["names"])}
+    b0 = single["base_columns"][0]
+    claims = []
+    for v in list(zm.tvars) + list(zm.mvars):
+        for k in range(nsim):
+            a, b = _cell_term(split["out"][rp[v], b0 + k]), _cell_term(single["out"][rs[v], b0 + k])
+            if (a is None) != (b is None):
+                run.counterexample(key, finding, f"{v}@{k} missing in one of the two simulations", dict(case, values={}))
+                return
+            if a is not None:
+                claims.append((f"{v}@{k}", a - b))
+    syms = dict(single["syms"]); syms.update(split["syms"])
+    assume = _box(syms) + [p1.condition(), p2.condition()]
+    r0, _ = run.check_sat(assume, timeout_ms=20000)
+    if r0 != "sat" or not claims:
+        run.unknown(key, f"reachability witness {r0} / {len(claims)} claims")
+        return
+    run.reach_ok += 1
+    tol = Fraction(1, 10 ** 8)
+    r, mdl = run.check_sat(assume + [z3.Or(*[z3.Or(c > tol, c < -tol) for _, c in claims])], timeout_ms=120000)
+    if r == "unsat":
+        if len(run.samples) < 12:
+            run.samples.append({"obligation": key, "verdict": f"unsat: the {len(L2.caps)}-frame simulation equals the single-frame one (1e-8) for all inputs in the unit box", "claims": len(claims)})
+        run.ok(key)
+    elif r == "sat":
+        big = [z3.Or(c > Fraction(1, 1000), c < -Fraction(1, 1000)) for _, c in claims]
+        # the frames are cut where the CONCRETE run has a non-zero unanticipated shock: a witness must keep those shocks away from zero
+        nz = [z3.Or(sy.t >= Fraction(1, 8), sy.t <= -Fraction(1, 8)) for n_, sy in syms.items() if n_.split("__")[0] in zm.tshocks]
+        rb, mb = run.check_sat(assume + nz + [z3.Or(*big)], timeout_ms=60000)
+        if rb == "sat":
+            mdl = mb
+        bad = []
+        for labl, c in claims:
+            d = mdl.eval(c, model_completion=True)
+            fv = Fraction(d.numerator_as_long(), d.denominator_as_long())
+            if abs(fv) > tol:
+                bad.append((labl, float(fv)))
+        vals = model_values(mdl, sorted(syms))
+        run.counterexample(key, finding, f"split-frame simulation differs from the single-frame one: {bad[:4]}",
+                           dict(case, bad=bad[:6], values={n: [v.numerator, v.denominator] for n, v in vals.items()}))
+    else:
+        run.unknown(key, f"solver {r}")
+
+
 def equations_hold_history(run, ir, zm, deviation, nsim, horizons):
     """a HISTORY of simulations on ONE solved model object (growing and shrinking anticipated-shock horizons): state kept
     between simulations (cached forward expansions) must not change any of them"""
@@ -744,6 +806,14 @@ def main(run):
                     run.unknown(f"span_extension:{zm.name}:dev={deviation}", exc)
                 except Exception as exc:
                     run.error(f"span_extension:{zm.name}:dev={deviation}", exc)
+        if zm.tshocks and zm.name in ("nk3", "pc_const", "lead2"):
+            for deviation in ((True,) if quick else (True, False)):
+                try:
+                    split_equals_single(run, ir, zm, deviation)
+                except S.SymbolicBranchError as exc:
+                    run.unknown(f"split_frames:{zm.name}:dev={deviation}", exc)
+                except Exception as exc:
+                    run.error(f"split_frames:{zm.name}:dev={deviation}", exc)
         if zm.tshocks and (not quick or zm.name in ("nk3", "pc_const")):
             for hz in (((1,), (0, 3), (2,)), ((0,), (0, 1, 2, 3), (1, 3))):
                 try:
@@ -789,6 +859,22 @@ def replay(case):
         n_unst = sum(1 for s in st if "UNSTABLE" in str(s))
         n_unit = sum(1 for s in st if "UNIT" in str(s))
         return (n_unst != zm.forward or n_unit != zm.unit_roots), f"{n_unst} unstable, {n_unit} unit"
+    if kind == "split_frames":
+        deviation, nsim = case["deviation"], case["nsim"]
+        m, db, span, ant_cells, steady = _setup(ir, zm, nsim, 0, deviation, values=vals, ant_ks={nsim - 1, 1})
+        o1 = m.simulate(db, span, method="first_order", deviation=deviation)
+        o2 = m.simulate(db, span, method="first_order", deviation=deviation, force_split_frames=True)
+        worst, msg = 0.0, "split-frame and single-frame simulations agree"
+        for v in list(zm.tvars) + list(zm.mvars):
+            for k in range(nsim):
+                a = float(np.asarray(o1[v].get_data(span.start + k)).reshape(-1)[0])
+                b = float(np.asarray(o2[v].get_data(span.start + k)).reshape(-1)[0])
+                if math.isnan(a) and math.isnan(b):
+                    continue
+                d = abs(a - b)
+                if not d <= worst:
+                    worst, msg = (d if d == d else float("inf")), f"{v}@{k}: single frame {a!r} vs split frames {b!r}"
+        return worst > 1e-7, msg
     if kind == "span_extension":
         deviation, nsim = case["deviation"], case["nsim"]
         m, db_s, span_s, ant_s, steady = _setup(ir, zm, nsim, nsim, deviation, values=vals)
